@@ -116,9 +116,19 @@ def run(ctx):
     tsets = [{"Ksmacz0": 7.3, "alpha": 3.0, "zeta_max_cm": 1.0}] + [
         {"Ksmacz0": 10 ** rng.uniform(-4, 5), "alpha": rng.uniform(1.05, 20.0), "zeta_max_cm": rng.choice([1.0, 0.0, 5.0, rng.uniform(-5, 20)])}
         for _ in range(n * 3)]
-    for p in tsets:
+    live = None
+    for k_p, p in enumerate(tsets):
         try:
-            T = tm.PeatclsmTransmissivity(**p)
+            if live is not None and k_p % 3 == 2:
+                # a sensitivity sweep on a live object: the parameters are public attributes; after reassigning them the
+                # object must be the function of its stated parameters, as a freshly constructed one is
+                T = live
+                for name, v in p.items():
+                    setattr(T, name, v)
+                ctx.count("transmissivity_objects_reused_with_reassigned_parameters")
+            else:
+                T = tm.PeatclsmTransmissivity(**p)
+                live = T
         except Exception as e:  # noqa
             ctx.violation("impl-violation", "c16Holds", {"input": {"transmissivity": p}, "impl": repr(e)[:200], "oracle": {
                 "name": "c16Holds", "result": False, "witness": {"why": "the transmissivity cannot be constructed", "exception": repr(e)[:200]}}})
